@@ -71,6 +71,9 @@ struct Builder {
     strform: String,
     dirs: Vec<gimli::write::DirectoryId>,
     files: Vec<gimli::write::FileId>,
+    /// encoding of the unit that refers to the program (the argument of `LineProgram::write`); defaults to
+    /// the program's own encoding
+    uenc: Option<Encoding>,
 }
 
 impl Builder {
@@ -99,7 +102,7 @@ impl Builder {
         prog.file_has_md5 = flags["md5"].as_bool().unwrap_or(false);
         prog.file_has_source = flags["src"].as_bool().unwrap_or(false);
         let d0 = prog.default_directory();
-        let mut b = Builder { p, prog, lstr, strs, strform: strform.to_string(), dirs: vec![d0], files: vec![] };
+        let mut b = Builder { p, prog, lstr, strs, strform: strform.to_string(), dirs: vec![d0], files: vec![], uenc: None };
         let a = b.ls(b"a.c");
         let f0 = b.prog.add_file(a, d0, None);
         let bb = b.ls(b"b.c");
@@ -170,7 +173,8 @@ impl Builder {
     fn finish(&mut self) -> Value {
         let en = RunTimeEndian::Little;
         let mut w = WDebugLine::from(EndianVec::new(en));
-        let off = match self.prog.write(&mut w, self.p.enc, &mut self.lstr, &mut self.strs) {
+        let unit_enc = self.uenc.unwrap_or(self.p.enc);
+        let off = match self.prog.write(&mut w, unit_enc, &mut self.lstr, &mut self.strs) {
             Ok(o) => o,
             Err(e) => return json!({"ok": false, "err": format!("{:?}", e)}),
         };
@@ -302,8 +306,16 @@ fn replay(case: &Value) -> Value {
     let strform = case["strform"].as_str().unwrap_or("string").to_string();
     let flags = case.get("flags").cloned().unwrap_or(json!({}));
     match case["sys"].as_str() {
-        Some("script") | Some("files") => {
+        Some("script") | Some("files") | Some("mixed") => {
             let mut b = Builder::new(&case["P"], &strform, &flags);
+            if case["uenc"].is_object() {
+                // the referring unit has its own version / format (same address size)
+                b.uenc = Some(Encoding {
+                    version: case["uenc"]["ver"].as_u64().unwrap() as u16,
+                    format: if case["uenc"]["fmt"].as_u64() == Some(64) { Format::Dwarf64 } else { Format::Dwarf32 },
+                    address_size: b.p.enc.address_size,
+                });
+            }
             for c in case["calls"].as_array().unwrap() {
                 b.call(c);
             }
